@@ -16,6 +16,8 @@ def strip(e, through_calls=True):
             e = e[1]
         elif through_calls and e[0] == "call" and _TRANSPARENT.search(e[1]) and len(e[2]) == 1:
             e = e[2][0]
+        elif e[0] == "proj" and e[2].replace("*", "") == "":
+            e = e[1]
         else:
             return e
 
